@@ -161,7 +161,7 @@ func vUserMap(old string) *UserMap {
 }
 
 // a reload that fails to parse leaves the previous contents in force; a successful one replaces them completely
-// verif: unwind=6 strlen=12
+// verif: unwind=6 strlen=12 also=C08
 func vh_C20_usermap_reload() {
 	um := vUserMap("al@x.io")
 	recs := vEmailRecords()
